@@ -362,28 +362,68 @@ func readServerSettings() ([]serverSetting, error) {
 	if err != nil {
 		return nil, err
 	}
-	var out []serverSetting
+	// every struct type of the file; embedded option structs (kong: `embed:"" envprefix:"X"`) are expanded in place
+	structs := map[string]*ast.StructType{}
 	ast.Inspect(f, func(n ast.Node) bool {
-		ts, ok := n.(*ast.TypeSpec)
-		if !ok || ts.Name.Name != "serverApp" {
-			return true
+		if ts, ok := n.(*ast.TypeSpec); ok {
+			if st, ok := ts.Type.(*ast.StructType); ok {
+				structs[ts.Name.Name] = st
+			}
 		}
-		st, ok := ts.Type.(*ast.StructType)
-		if !ok {
-			return true
-		}
+		return true
+	})
+	var expand func(st *ast.StructType, envPrefix string, depth int) []serverSetting
+	expand = func(st *ast.StructType, envPrefix string, depth int) []serverSetting {
+		var out []serverSetting
 		for _, fld := range st.Fields.List {
-			if fld.Tag == nil || len(fld.Names) == 0 {
+			tag := ""
+			if fld.Tag != nil {
+				tag, _ = strconv.Unquote(fld.Tag.Value)
+			}
+			stag := reflect.StructTag(tag)
+			if len(fld.Names) == 0 { // embedded
+				if id, ok := fld.Type.(*ast.Ident); ok && depth < 4 {
+					if _, isEmbed := stag.Lookup("embed"); isEmbed {
+						if inner, ok := structs[id.Name]; ok {
+							out = append(out, expand(inner, envPrefix+stag.Get("envprefix"), depth+1)...)
+						}
+					}
+				}
 				continue
 			}
-			tag, _ := strconv.Unquote(fld.Tag.Value)
-			stag := reflect.StructTag(tag)
-			out = append(out, serverSetting{Flag: kebab(fld.Names[0].Name), Env: stag.Get("env"), Default: stag.Get("default"), Type: stag.Get("type")})
+			if fld.Tag == nil {
+				continue
+			}
+			if _, isEmbed := stag.Lookup("embed"); isEmbed {
+				if id, ok := fld.Type.(*ast.Ident); ok && depth < 4 {
+					if inner, ok := structs[id.Name]; ok {
+						out = append(out, expand(inner, envPrefix+stag.Get("envprefix"), depth+1)...)
+						continue
+					}
+				}
+			}
+			env := stag.Get("env")
+			if env != "" {
+				env = envPrefix + env
+			}
+			out = append(out, serverSetting{Flag: kebab(fld.Names[0].Name), Env: env, Default: stag.Get("default"), Type: stag.Get("type")})
 		}
-		return false
-	})
+		return out
+	}
+	// the command's struct: serverApp, or - should it be renamed - the struct with the most settings
+	var out []serverSetting
+	if st, ok := structs["serverApp"]; ok {
+		out = expand(st, "", 0)
+	}
 	if len(out) == 0 {
-		return nil, fmt.Errorf("genconsts: serverApp not found in %s", path)
+		for _, st := range structs {
+			if c := expand(st, "", 0); len(c) > len(out) {
+				out = c
+			}
+		}
+	}
+	if len(out) == 0 {
+		return nil, fmt.Errorf("genconsts: no settings struct found in %s", path)
 	}
 	return out, nil
 }
